@@ -1,7 +1,10 @@
 (* case formats (all strings hex-encoded, "-" = empty):
      C20 tp <Type> <hex of string>          parse the string:  "ok <value>" | "err <class>"
      C20 tr <Type> <value>                  print the value and parse it back:  "<hex of printed string> ok <value>" | "... err <class>"
-     C20 ps <hex of a PSET>                 derived PartiallySignedTransaction serde (exploration in support): fixed token "pset-serde"
+     C20 ps <caps> <points> <leaf oracle> <value> <hex of the PSET>
+                                            derived PartiallySignedTransaction serde through the codec of Model/SerdePset.v; <value> is the PSET in the
+                                            notation of parse_fval, <leaf oracle> the serialized forms of the dependency leaves (kind:canonical hex:json tree:cbor tree,...);
+                                            result "J <json text> <verdict> <verdict> C <hex of cbor> <verdict>"
      C20 sd <type> <caps> <points> <hex>    serde: the value is given by its consensus encoding (types tx txin1 txout1 header block params value
                                             asset nonce) or directly (outpoint <txid>:<vout>, secrets <asset>,<abf>,<value>,<vbf>, locktime <u32>,
                                             hash:<Name> <hex>, abf / vbf <hex>, script <hex>, str <hex of a Display string>);
@@ -10,7 +13,7 @@
    "B<n>" / "S<n>" out; OutPoint "<txid hex>:<vout>"; sighash types = their numeric value. *)
 From Coq Require Import List NArith Bool.
 From Coq.Strings Require Import Byte.
-From EV Require Import Base.Bytes Base.Codec Gen.Tables Model.Tx Model.Block Model.Text Model.Serde Extract.RunUtil.
+From EV Require Import Base.Bytes Base.Codec Gen.Tables Model.Tx Model.Block Model.Text Model.Serde Model.SerdePset Extract.RunUtil.
 Import ListNotations.
 Open Scope N_scope.
 
@@ -142,7 +145,7 @@ Definition run_serde (ty caps pts arg : bytes) : bytes :=
 
 (* ---------- C20 dm <name>: deserializing hand-made trees that no Serialize impl produces (unknown / repeated / missing keys, trailing
    elements, partial Params ...).  The model renders its tree as JSON text; the harness holds the same text and feeds it to serde_json. ---------- *)
-Definition S (b : blit) : sval := VStr b.
+Definition St (b : blit) : sval := VStr b.
 Definition kv (k : blit) (v : sval) : sval * sval := (VStr k, v).
 Definition null_wit : sval := VMap [kv "surjection_proof" VUnit; kv "rangeproof" VUnit].
 Definition probe_result {A} (ser : bool -> A -> sval) (de : bool -> sval -> res A) (t : sval) : bytes :=
@@ -153,12 +156,12 @@ Definition run_probe (name : bytes) : bytes :=
   let V := probe_result ser_value (de_value all_pts) in
   let O := probe_result ser_txout (de_txout all_pts) in
   let E := probe_result ser_extdata de_extdata in
-  if is_ty name "params-partial" then P (VMap [kv "signblockscript" (S "51")])
-  else if is_ty name "params-full-and-elided" then P (VMap [kv "elided_root" (S "0000000000000000000000000000000000000000000000000000000000000001"); kv "signblockscript" (S "51"); kv "signblock_witness_limit" (VU64 7);
-                                                    kv "fedpeg_program" (S "0014"); kv "fedpegscript" (VSeq [VU64 1; VU64 255]); kv "extension_space" (VSeq [S "AbCd"; VSeq []])])
-  else if is_ty name "params-compact-unknown-key" then P (VMap [kv "foo" (VSeq [VUnit; VMap []]); kv "signblockscript" (S ""); kv "signblock_witness_limit" (VU64 4294967295);
-                                                        kv "elided_root" (S "ff00000000000000000000000000000000000000000000000000000000000000")])
-  else if is_ty name "params-bad-limit" then P (VMap [kv "signblockscript" (S "51"); kv "signblock_witness_limit" (S "7")])
+  if is_ty name "params-partial" then P (VMap [kv "signblockscript" (St "51")])
+  else if is_ty name "params-full-and-elided" then P (VMap [kv "elided_root" (St "0000000000000000000000000000000000000000000000000000000000000001"); kv "signblockscript" (St "51"); kv "signblock_witness_limit" (VU64 7);
+                                                    kv "fedpeg_program" (St "0014"); kv "fedpegscript" (VSeq [VU64 1; VU64 255]); kv "extension_space" (VSeq [St "AbCd"; VSeq []])])
+  else if is_ty name "params-compact-unknown-key" then P (VMap [kv "foo" (VSeq [VUnit; VMap []]); kv "signblockscript" (St ""); kv "signblock_witness_limit" (VU64 4294967295);
+                                                        kv "elided_root" (St "ff00000000000000000000000000000000000000000000000000000000000000")])
+  else if is_ty name "params-bad-limit" then P (VMap [kv "signblockscript" (St "51"); kv "signblock_witness_limit" (St "7")])
   else if is_ty name "params-limit-overflow" then P (VMap [kv "signblock_witness_limit" (VU64 4294967296)])
   else if is_ty name "params-fedpegscript-bad-byte" then P (VMap [kv "fedpegscript" (VSeq [VU64 256])])
   else if is_ty name "params-array" then P (VSeq [])
@@ -167,32 +170,137 @@ Definition run_probe (name : bytes) : bytes :=
   else if is_ty name "value-explicit-trailing" then V (VSeq [VU64 1; VU64 5; VU64 6])
   else if is_ty name "value-bad-tag" then V (VSeq [VU64 3])
   else if is_ty name "value-tag-256" then V (VSeq [VU64 256])
-  else if is_ty name "value-tag-string" then V (VSeq [S "0"])
+  else if is_ty name "value-tag-string" then V (VSeq [St "0"])
   else if is_ty name "value-empty" then V (VSeq [])
   else if is_ty name "value-u64-max" then V (VSeq [VU64 1; VU64 18446744073709551615])
   else if is_ty name "value-u64-overflow" then V (VSeq [VU64 1; VU64 18446744073709551616])
-  else if is_ty name "value-conf-badhex" then V (VSeq [VU64 2; S "zz"])
+  else if is_ty name "value-conf-badhex" then V (VSeq [VU64 2; St "zz"])
   else if is_ty name "value-map" then V (VMap [])
-  else if is_ty name "txout-dup-first-invalid" then O (VMap [kv "asset" (VSeq [VU64 0]); kv "value" (VSeq [VU64 7]); kv "value" (VSeq [VU64 0]); kv "nonce" (VSeq [VU64 0]); kv "script_pubkey" (S ""); kv "witness" null_wit])
-  else if is_ty name "txout-dup-last-wins" then O (VMap [kv "asset" (VSeq [VU64 0]); kv "value" (VSeq [VU64 1; VU64 0]); kv "value" (VSeq [VU64 0]); kv "nonce" (VSeq [VU64 0]); kv "script_pubkey" (S "AB"); kv "witness" null_wit; kv "extra" VUnit])
-  else if is_ty name "txout-missing-nonce" then O (VMap [kv "asset" (VSeq [VU64 0]); kv "value" (VSeq [VU64 0]); kv "script_pubkey" (S ""); kv "witness" null_wit])
-  else if is_ty name "txout-as-array" then O (VSeq [VSeq [VU64 0]; VSeq [VU64 0]; VSeq [VU64 0]; S ""; null_wit])
-  else if is_ty name "txout-odd-hex-script" then O (VMap [kv "asset" (VSeq [VU64 0]); kv "value" (VSeq [VU64 0]); kv "nonce" (VSeq [VU64 0]); kv "script_pubkey" (S "5"); kv "witness" null_wit])
-  else if is_ty name "txout-nonce-31" then O (VMap [kv "asset" (VSeq [VU64 0]); kv "value" (VSeq [VU64 0]); kv "nonce" (VSeq [VU64 1; VSeq (repeat (VU64 9) 31)]); kv "script_pubkey" (S ""); kv "witness" null_wit])
-  else if is_ty name "txout-nonce-33" then O (VMap [kv "asset" (VSeq [VU64 0]); kv "value" (VSeq [VU64 0]); kv "nonce" (VSeq [VU64 1; VSeq (repeat (VU64 9) 33)]); kv "script_pubkey" (S ""); kv "witness" null_wit])
-  else if is_ty name "txout-nonce-32" then O (VMap [kv "asset" (VSeq [VU64 0]); kv "value" (VSeq [VU64 0]); kv "nonce" (VSeq [VU64 1; VSeq (repeat (VU64 9) 32)]); kv "script_pubkey" (S ""); kv "witness" null_wit])
-  else if is_ty name "extdata-challenge-only" then E (VMap [kv "challenge" (S "51")])
-  else if is_ty name "extdata-solution-only" then E (VMap [kv "solution" (S "51")])
-  else if is_ty name "extdata-both-kinds" then E (VMap [kv "current" (VMap []); kv "proposed" (VMap []); kv "signblock_witness" (VSeq []); kv "challenge" (S "51"); kv "solution" (S "")])
-  else if is_ty name "extdata-dynafed-partial-params" then E (VMap [kv "current" (VMap [kv "signblockscript" (S "51")]); kv "proposed" (VMap []); kv "signblock_witness" (VSeq [VSeq [VU64 1]; VSeq []])])
+  else if is_ty name "txout-dup-first-invalid" then O (VMap [kv "asset" (VSeq [VU64 0]); kv "value" (VSeq [VU64 7]); kv "value" (VSeq [VU64 0]); kv "nonce" (VSeq [VU64 0]); kv "script_pubkey" (St ""); kv "witness" null_wit])
+  else if is_ty name "txout-dup-last-wins" then O (VMap [kv "asset" (VSeq [VU64 0]); kv "value" (VSeq [VU64 1; VU64 0]); kv "value" (VSeq [VU64 0]); kv "nonce" (VSeq [VU64 0]); kv "script_pubkey" (St "AB"); kv "witness" null_wit; kv "extra" VUnit])
+  else if is_ty name "txout-missing-nonce" then O (VMap [kv "asset" (VSeq [VU64 0]); kv "value" (VSeq [VU64 0]); kv "script_pubkey" (St ""); kv "witness" null_wit])
+  else if is_ty name "txout-as-array" then O (VSeq [VSeq [VU64 0]; VSeq [VU64 0]; VSeq [VU64 0]; St ""; null_wit])
+  else if is_ty name "txout-odd-hex-script" then O (VMap [kv "asset" (VSeq [VU64 0]); kv "value" (VSeq [VU64 0]); kv "nonce" (VSeq [VU64 0]); kv "script_pubkey" (St "5"); kv "witness" null_wit])
+  else if is_ty name "txout-nonce-31" then O (VMap [kv "asset" (VSeq [VU64 0]); kv "value" (VSeq [VU64 0]); kv "nonce" (VSeq [VU64 1; VSeq (repeat (VU64 9) 31)]); kv "script_pubkey" (St ""); kv "witness" null_wit])
+  else if is_ty name "txout-nonce-33" then O (VMap [kv "asset" (VSeq [VU64 0]); kv "value" (VSeq [VU64 0]); kv "nonce" (VSeq [VU64 1; VSeq (repeat (VU64 9) 33)]); kv "script_pubkey" (St ""); kv "witness" null_wit])
+  else if is_ty name "txout-nonce-32" then O (VMap [kv "asset" (VSeq [VU64 0]); kv "value" (VSeq [VU64 0]); kv "nonce" (VSeq [VU64 1; VSeq (repeat (VU64 9) 32)]); kv "script_pubkey" (St ""); kv "witness" null_wit])
+  else if is_ty name "extdata-challenge-only" then E (VMap [kv "challenge" (St "51")])
+  else if is_ty name "extdata-solution-only" then E (VMap [kv "solution" (St "51")])
+  else if is_ty name "extdata-both-kinds" then E (VMap [kv "current" (VMap []); kv "proposed" (VMap []); kv "signblock_witness" (VSeq []); kv "challenge" (St "51"); kv "solution" (St "")])
+  else if is_ty name "extdata-dynafed-partial-params" then E (VMap [kv "current" (VMap [kv "signblockscript" (St "51")]); kv "proposed" (VMap []); kv "signblock_witness" (VSeq [VSeq [VU64 1]; VSeq []])])
   else if is_ty name "extdata-empty" then E (VMap [])
   else if is_ty name "secrets-dup" then probe_result ser_secrets de_secrets (VMap [kv "value" (VU64 1); kv "value" (VU64 1)])
   else if is_ty name "locktime-two-entries" then probe_result (fun _ => ser_locktime) (fun _ => de_locktime) (VMap [kv "Blocks" (VU64 1); kv "Seconds" (VU64 2)])
   else if is_ty name "locktime-lowercase" then probe_result (fun _ => ser_locktime) (fun _ => de_locktime) (VMap [kv "blocks" (VU64 1)])
   else if is_ty name "locktime-number" then probe_result (fun _ => ser_locktime) (fun _ => de_locktime) (VU64 1)
-  else if is_ty name "outpoint-no-prefix" then probe_result ser_outpoint de_outpoint (S "0100000000000000000000000000000000000000000000000000000000000000:7")
-  else if is_ty name "outpoint-as-map" then probe_result ser_outpoint de_outpoint (VMap [kv "txid" (S "0100000000000000000000000000000000000000000000000000000000000000"); kv "vout" (VU64 7)])
+  else if is_ty name "outpoint-no-prefix" then probe_result ser_outpoint de_outpoint (St "0100000000000000000000000000000000000000000000000000000000000000:7")
+  else if is_ty name "outpoint-as-map" then probe_result ser_outpoint de_outpoint (VMap [kv "txid" (St "0100000000000000000000000000000000000000000000000000000000000000"); kv "vout" (VU64 7)])
   else err "probe".
+
+(* ---------- C20 ps: the derived PSET serde ---------- *)
+Fixpoint take_until (c : byte) (s : bytes) (acc : bytes) : option (bytes * bytes) :=
+  match s with [] => None | x :: r => if byte_eqb x c then Some (rev_append acc [], r) else take_until c r (x :: acc) end.
+Definition semi : byte := x3b.
+(* value notation:  n<dec>;  b<hex>;  t  f  z  s<v>  [<v>...]  (<v>...) : number, bytes, bool, None, Some, list, tuple *)
+Fixpoint parse_fval (fuel : nat) (s : bytes) : option (fval * bytes) :=
+  match fuel with O => None | S f =>
+    match s with
+    | x6e :: r => match take_until semi r [] with Some (d, r') => option_map (fun n => (FN n, r')) (N_of_dec d) | None => None end
+    | x62 :: r => match take_until semi r [] with Some (h, r') => option_map (fun b => (FB b, r')) (bytes_of_hex h) | None => None end
+    | x74 :: r => Some (FBool true, r)
+    | x66 :: r => Some (FBool false, r)
+    | x7a :: r => Some (FOpt None, r)
+    | x73 :: r => match parse_fval f r with Some (v, r') => Some (FOpt (Some v), r') | None => None end
+    | x5b :: r => match parse_fitems f x5d r with Some (l, r') => Some (FList l, r') | None => None end
+    | x28 :: r => match parse_fitems f x29 r with Some (l, r') => Some (FTup l, r') | None => None end
+    | _ => None end end
+with parse_fitems (fuel : nat) (close : byte) (s : bytes) : option (list fval * bytes) :=
+  match fuel with O => None | S f =>
+    match s with
+    | [] => None
+    | c :: r => if byte_eqb c close then Some ([], r)
+                else match parse_fval f s with
+                     | Some (v, r') => match parse_fitems f close r' with Some (l, r'') => Some (v :: l, r'') | None => None end
+                     | None => None end end end.
+(* wire-tree notation:  0  t  f  n<dec>;  s<hex>;  y<hex>;  [<t>...]  {<k><v>...} : null, bool, unsigned, text, bytes, array, map *)
+Fixpoint pairs_up (l : list sval) : option (list (sval * sval)) :=
+  match l with [] => Some [] | k :: v :: r => option_map (cons (k, v)) (pairs_up r) | _ => None end.
+Fixpoint parse_tree (fuel : nat) (s : bytes) : option (sval * bytes) :=
+  match fuel with O => None | S f =>
+    match s with
+    | x30 :: r => Some (VUnit, r)
+    | x74 :: r => Some (VBool true, r)
+    | x66 :: r => Some (VBool false, r)
+    | x6e :: r => match take_until semi r [] with Some (d, r') => option_map (fun n => (VU64 n, r')) (N_of_dec d) | None => None end
+    | x73 :: r => match take_until semi r [] with Some (h, r') => option_map (fun b => (VStr b, r')) (bytes_of_hex h) | None => None end
+    | x79 :: r => match take_until semi r [] with Some (h, r') => option_map (fun b => (VBytes b, r')) (bytes_of_hex h) | None => None end
+    | x5b :: r => match parse_titems f x5d r with Some (l, r') => Some (VSeq l, r') | None => None end
+    | x7b :: r => match parse_titems f x7d r with Some (l, r') => option_map (fun m => (VMap m, r')) (pairs_up l) | None => None end
+    | _ => None end end
+with parse_titems (fuel : nat) (close : byte) (s : bytes) : option (list sval * bytes) :=
+  match fuel with O => None | S f =>
+    match s with
+    | [] => None
+    | c :: r => if byte_eqb c close then Some ([], r)
+                else match parse_tree f s with
+                     | Some (v, r') => match parse_titems f close r' with Some (l, r'') => Some (v :: l, r'') | None => None end
+                     | None => None end end end.
+Definition whole {A} (p : option (A * bytes)) : option A := match p with Some (a, []) => Some a | _ => None end.
+Fixpoint sval_eqb (a b : sval) : bool :=
+  match a, b with
+  | VUnit, VUnit => true
+  | VBool x, VBool y => Bool.eqb x y
+  | VU64 x, VU64 y => x =? y
+  | VStr x, VStr y | VBytes x, VBytes y => bytes_eqb x y
+  | VSeq l, VSeq m => (fix go (l m : list sval) : bool := match l, m with [], [] => true | x :: l', y :: m' => sval_eqb x y && go l' m' | _, _ => false end) l m
+  | VMap l, VMap m => (fix go (l m : list (sval * sval)) : bool :=
+                         match l, m with [], [] => true | (k, x) :: l', (k', y) :: m' => sval_eqb k k' && sval_eqb x y && go l' m' | _, _ => false end) l m
+  | _, _ => false end.
+(* the leaf oracle: what the real crate serialized each dependency value to *)
+Definition orow := (bytes * bytes * sval * sval)%type.
+Definition parse_orow (s : bytes) : option orow :=
+  match split_on x3a s [] with
+  | [k; c; j; t] => match hexarg c, whole (parse_tree (S (length j)) j), whole (parse_tree (S (length t)) t) with
+                    | Some c', Some j', Some t' => Some (k, c', j', t') | _, _, _ => None end
+  | _ => None end.
+Definition parse_oracle (s : bytes) : option (list orow) :=
+  if bytes_eqb s "-"%lb then Some [] else all_some (map parse_orow (split_on x2c s [])).
+Definition or_kind (r : orow) := fst (fst (fst r)).  Definition or_canon (r : orow) := snd (fst (fst r)).
+Definition or_tree (hr : bool) (r : orow) : sval := if hr then snd (fst r) else snd r.
+Definition oracle_ser (Orc : list orow) (kind : bytes) (hr : bool) (b : bytes) : sval :=
+  match find (fun r => bytes_eqb (or_kind r) kind && bytes_eqb (or_canon r) b) Orc with Some r => or_tree hr r | None => VStr "?"%lb end.
+Definition oracle_de (Orc : list orow) (kind : bytes) (hr : bool) (v : sval) : res bytes :=
+  match find (fun r => bytes_eqb (or_kind r) kind && sval_eqb (or_tree hr r) v) Orc with Some r => Ok (or_canon r) | None => Err "leaf"%lb end.
+Definition oracle_ok (Orc : list orow) (kind b : bytes) : bool := existsb (fun r => bytes_eqb (or_kind r) kind && bytes_eqb (or_canon r) b) Orc.
+
+Definition run_pset (caps pts oracle value : bytes) : bytes :=
+  match caps5 caps, hexlist pts, parse_oracle oracle, whole (parse_fval (S (length value)) value) with
+  | Some (maxvec, ci, co, cv, _), Some valid, Some Orc, Some x =>
+      let c := sc_pset (mem_bytes valid) maxvec ci co cv (oracle_ser Orc) (oracle_de Orc) (oracle_ok Orc) in
+      if negb (s_wf c x) then err "wf" else
+      let j := json_view (s_ser c true x) in
+      let b := cbor_view (s_ser c false x) in
+      let verdict (hr : bool) (w : sval) :=
+        match s_de c hr w with
+        | Ok y => if bytes_eqb (render_json (json_view (s_ser c true y))) (render_json j) then "ok same"%lb else "ok diff"%lb
+        | Err _ => "err"%lb end in
+      "J "%lb ++ render_json j ++ sp ++ verdict true j ++ sp ++ verdict true j ++ " C "%lb ++ show_hex (render_cbor b) ++ sp ++ verdict false b
+  | _, _, _, _ => err "parse" end.
+
+(* C20 lc <constructor> <n>: LockTime through a constructor (from_consensus; from_height / Blocks / From<Height> check n < threshold;
+   from_time / Seconds / From<Time> check n >= threshold), printed and parsed back *)
+Definition run_locktime_ctor (ctor n : bytes) : bytes :=
+  match N_of_dec n with
+  | None => err "value"
+  | Some k =>
+      let l : option locktime :=
+        if is_ty ctor "from_consensus" then Some (locktime_from_consensus k)
+        else if is_ty ctor "from_height" || is_ty ctor "Blocks" || is_ty ctor "From<Height>" then (if k <? C20_LOCK_TIME_THRESHOLD then Some (Blocks k) else None)
+        else if is_ty ctor "from_time" || is_ty ctor "Seconds" || is_ty ctor "From<Time>" then (if C20_LOCK_TIME_THRESHOLD <=? k then Some (Seconds k) else None)
+        else None in
+      match l with
+      | None => "none"%lb
+      | Some l => "ok "%lb ++ show_locktime l ++ sp ++ show_hex (print_locktime l) ++ sp ++ show_res show_locktime (parse_locktime (print_locktime l)) end end.
 
 (* C20 lj <Variant> <n>: LockTime from the JSON {"<Variant>": n}, printed and parsed back *)
 Definition run_locktime_json (variant n : bytes) : bytes :=
@@ -207,13 +315,14 @@ Definition run (args : list bytes) : bytes :=
   | [k; ty; a] =>
       if bytes_eqb k "tp"%lb then match hexarg a with Some s => run_parse ty s | None => err "hex" end
       else if bytes_eqb k "lj"%lb then run_locktime_json ty a
+      else if bytes_eqb k "lc"%lb then run_locktime_ctor ty a
       else if bytes_eqb k "tr"%lb then
         match run_print ty a with
         | Some s => show_hex s ++ sp ++ run_parse ty s
         | None => err "value" end
       else err "kind"
   | [k; name] => if bytes_eqb k "dm"%lb then run_probe name
-                 else if bytes_eqb k "ps"%lb then "pset-serde"%lb     (* derived PSET serde: no model, the harness evaluates the predicate only *)
                  else err "kind"
   | [k; ty; caps; pts; a] => if bytes_eqb k "sd"%lb then run_serde ty caps pts a else err "kind"
+  | [k; caps; pts; oracle; value; _] => if bytes_eqb k "ps"%lb then run_pset caps pts oracle value else err "kind"
   | _ => err "args" end.
